@@ -4,8 +4,8 @@ CONSTANTS
   MaxCy = 1
   Prices = {"0", "1", "2", "3"}
   Rates = {"0", "1/2", "1", "2"}
-  PTCs = {"0", "1"}
-  Infls = {"0", "1/2"}
+  PTCs = {"0", "1", "2"}
+  Infls = {"0", "1/2", "1"}
   Dump = TRUE
 INVARIANT TypeOK
 INVARIANT ShapePTC
